@@ -3,8 +3,8 @@
 Copies a confirmed seeded change from /tmp/seedout/<id>/<n> into /verif/seeded/<id>-<n>/ ."""
 import glob, json, os, shutil, sys
 sid, n, det, note = sys.argv[1:5]
-src = '/tmp/seedout/%s/%s' % (sid, n)
-dst = '/verif/seeded/%s-%s' % (sid, n)
+src = '%s/%s/%s' % (os.environ.get('SEEDOUT', '/tmp/seedout'), sid, n)
+dst = '/verif/seeded/%s-%d' % (sid, int(n) + int(os.environ.get('SEED_OFFSET', '0')))
 conf = json.load(open(src + '/confirm.json'))
 assert conf.get('confirmed'), 'not confirmed: %s' % conf
 os.makedirs(dst, exist_ok=True)
